@@ -36,7 +36,7 @@ ASSUMPTIONS = [
     "one remote ('origin'); branch names release/<a>.<b> and master",
     "headings that list no commit are not compared (implementation-only per DESIGN §1.3)",
 ]
-REQUIRED_FEATURES = ["merge", "several-roots", "heads-coincide", "head-inside-other-branch",
+REQUIRED_FEATURES = ["printed-report-parsed", "merge", "several-roots", "heads-coincide", "head-inside-other-branch",
                      "head-inside-other-branch+matching-reachable", "not-merged-expected", "tagged-head",
                      "not-built-head", "parallel-tagged-sub-branches", "tag-on-merge-of-built-sub-branches",
                      "lower-branch-commit-merged-into-build", "numeric-aware-order-matters", "master-present"]
@@ -46,21 +46,25 @@ B2 = ("release/2.0", "release/10.0")          # plain string order would put 10.
 B3 = ("release/2.0", "release/10.0", "master")
 B4 = ("release/1.0", "release/2.0", "release/10.0", "master")
 
-# group = (n, branch names, number of shards, match-size limit or None, compare printed report)
+# group = (n, branch names, number of shards, (max matching, max tagged) or None, printed-report mode)
+#   printed-report mode: "all" = every history is printed and parsed back; "distinct" = once per distinct
+#   report structure per worker process (the formatter receives nothing but the report data)
 _GROUPS = {
-    "quick": [(1, B3, 1, None, True), (2, B3, 1, None, True), (3, B1, 1, None, True), (3, B2, 1, None, True),
-              (3, B3, 1, None, True), (3, B4, 4, None, True),
-              (4, B1, 2, None, True), (4, B2, 10, None, True), (4, B3, 50, None, True)],
-    "thorough": [(1, B4, 1, None, True), (2, B4, 1, None, True), (3, B1, 1, None, True), (3, B2, 1, None, True),
-                 (3, B3, 1, None, True), (3, B4, 2, None, True),
-                 (4, B1, 1, None, True), (4, B2, 2, None, True), (4, B3, 10, None, True), (4, B4, 50, None, True),
-                 (5, B1, 5, None, True), (5, B2, 68, None, True), (5, B3, 340, 2, False)],
+    "quick": [(1, B2, 1, None, "all"), (2, B2, 1, None, "all"), (1, B3, 1, None, "all"), (2, B3, 1, None, "all"),
+              (3, B1, 1, None, "all"), (3, B2, 1, None, "all"), (3, B3, 2, None, "all"), (3, B4, 6, None, "all"),
+              (4, B1, 2, None, "all"), (4, B2, 16, None, "all"), (4, B3, 96, None, "distinct")],
+    "thorough": [(1, B2, 1, None, "all"), (2, B2, 1, None, "all"), (1, B4, 1, None, "all"), (2, B4, 1, None, "all"),
+                 (3, B1, 1, None, "all"), (3, B2, 1, None, "all"), (3, B3, 1, None, "all"), (3, B4, 2, None, "all"),
+                 (4, B1, 1, None, "all"), (4, B2, 4, None, "all"), (4, B3, 24, None, "all"),
+                 (4, B4, 96, None, "distinct"), (5, B1, 8, None, "all"), (5, B2, 128, None, "distinct"),
+                 (5, B3, 320, (2, 2), "distinct")],
 }
 
 
 def bounds(tier):
     return {"groups": [{"commits": n, "branches": list(names), "shards": k,
-                        "matching_commits_at_most": lim if lim is not None else n,
+                        "matching_commits_at_most": lim[0] if lim is not None else n,
+                        "tagged_commits_at_most": lim[1] if lim is not None else n,
                         "printed_report_compared": pr}
                        for n, names, k, lim, pr in _GROUPS[tier]],
             "parents_per_commit": "0..2, both orders", "tags": "any subset, one standard tag per commit",
@@ -84,23 +88,38 @@ def _dags(n):
     return _DAGS[n]
 
 
-def check_history(case, acc, compare_printed=True):
+_PRINT_SEEN = set()
+
+
+def check_history(case, acc, printed_mode="all"):
     """Runs one history; -> (list of problems, expected, observed)."""
     parents, heads, tags, match = case["parents"], case["heads"], case["tags"], case["match"]
     exp = gm.c06_expected(parents, heads, tags, match)
     acc.trans(1)
     try:
-        observed, printed, _fake = gm.run_single_repo(gm.c06_repo_spec(case), printed=compare_printed)
+        fake = gm.FakeRepo(gm.c06_repo_spec(case))
+        coll = gm.ghist.ReposCollection({"comp_1": gm.ModelProjectRepo("comp_1", fake, "origin")})
+        report = coll.make_report(gm.SEARCH_TEXT)
+        (_rid, rgraph), = report.data
+        observed = gm.observe_rgraph(rgraph)
     except Exception as e:  # noqa
         return [(f"raises-{type(e).__name__}", f"make_report raised {type(e).__name__}: {e}", repr(e), "a report")], exp, None
     problems = gm.c06_judge(parents, heads, tags, match, observed, exp)
-    if compare_printed:
-        acc.trans(1)
-        try:
-            pp = gm.parse_printed(printed)
-            problems += gm.c06_judge_printed(observed, pp.get("comp_1", []))
-        except ValueError as e:
-            problems.append(("printed-report-unparseable", str(e), printed, None))
+    if printed_mode == "distinct":
+        key = repr(observed)
+        if key in _PRINT_SEEN:
+            return problems, exp, observed
+        _PRINT_SEEN.add(key)
+    acc.trans(1)
+    acc.feat("printed-report-parsed")
+    try:
+        printed = str(report)
+        pp = gm.parse_printed(printed)
+        problems += gm.c06_judge_printed(observed, pp.get("comp_1", []))
+    except ValueError as e:
+        problems.append(("printed-report-unparseable", str(e), printed, None))
+    except Exception as e:  # noqa
+        problems.append((f"printing-raises-{type(e).__name__}", f"printing the report raised {e!r}", repr(e), None))
     return problems, exp, observed
 
 
@@ -124,19 +143,19 @@ def _outcome(observed, problems):
 
 def run_shard(shard, tier, seed, acc):
     _tier, gi, j = shard
-    n, names, k, lim, compare_printed = _GROUPS[tier][gi]
+    n, names, k, lim, printed_mode = _GROUPS[tier][gi]
     dags = _dags(n)
     full = (1 << (n + 1)) - 2
     ids = list(range(1, n + 1))
-    tag_sets = list(gm.subsets(ids))
-    match_sets = [m for m in gm.subsets(ids) if lim is None or len(m) <= lim]
+    tag_sets = [t for t in gm.subsets(ids) if lim is None or len(t) <= lim[1]]
+    match_sets = [m for m in gm.subsets(ids) if lim is None or len(m) <= lim[0]]
     extra = ()
     if "release/2.0" in names and "release/10.0" in names:
         extra += ("numeric-aware-order-matters",)
     if "master" in names:
         extra += ("master-present",)
-    for di in range(j, len(dags), k):
-        parents = dags[di]
+    idx = -1
+    for parents in dags:
         r = gm.reach_masks(parents)
         for hs in itertools.product(ids, repeat=len(names)):
             cover = 0
@@ -144,13 +163,16 @@ def run_shard(shard, tier, seed, acc):
                 cover |= r[h]
             if cover != full:
                 continue
+            idx += 1
+            if idx % k != j:        # the (DAG, heads) combinations are dealt round-robin to the group's shards
+                continue
             heads = [[b, h] for b, h in zip(names, hs)]
             if acc.expired():
                 return
             for tags in tag_sets:
                 for match in match_sets:
                     case = {"parents": parents, "heads": heads, "tags": tags, "match": match}
-                    problems, exp, observed = check_history(case, acc, compare_printed)
+                    problems, exp, observed = check_history(case, acc, printed_mode)
                     feats = gm.c06_features(parents, heads, tags, match, exp)
                     nontriv = gm.c06_nontrivial(match, exp)
                     acc.case(nontrivial=nontriv, features=tuple(feats) + extra,
@@ -162,6 +184,6 @@ def run_shard(shard, tier, seed, acc):
 
 
 def replay(case, acc):
-    problems, _exp, observed = check_history(case, acc, True)
+    problems, _exp, observed = check_history(case, acc, "all")
     acc.case(nontrivial=True, outcome=_outcome(observed, problems))
     _report(acc, case, problems)
